@@ -37,8 +37,11 @@ func main() {
 	flag.Parse()
 	os.MkdirAll(*out, 0o755)
 	gens := []generator{
+		{"CmpGen.v", genCmp},
 		{"ArithGen.v", genArith},
-		{"TablesGen.v", genTables},
+		{"ValuesGen.v", genValuesTab},
+		{"EngineGen.v", genEngineTab},
+		{"OpsGen.v", genOpsTab},
 		{"SitesGen.v", genSites},
 		{"CodecGen.v", genCodec},
 	}
